@@ -24,7 +24,21 @@ pub struct Spec {
 }
 
 impl Spec {
+    /// the model text; every fourth specification is written with a trailing comment on each definition line (the comment
+    /// itself mentions an issue number, so it holds a second '#')
     pub fn conf(&self) -> String {
+        let plain = self.conf_plain();
+        if variant(&[&plain]) % 4 != 1 { return plain; }
+        let mut out = String::new();
+        for (i, line) in plain.lines().enumerate() {
+            out.push_str(line);
+            if line.contains(" = ") { out.push_str(["  # see #7", " # allow | deny (issue #12)", "\t# note #1 # note #2"][i % 3]); }
+            out.push('\n');
+        }
+        out
+    }
+
+    fn conf_plain(&self) -> String {
         let mut s = String::from("[request_definition]\n");
         for (k, t) in &self.r { s.push_str(&format!("{} = {}\n", k, t.join(", "))); }
         s.push_str("[policy_definition]\n");
@@ -38,6 +52,56 @@ impl Spec {
         s.push_str("[matchers]\n");
         for (k, t) in &self.m { s.push_str(&format!("{} = {}\n", k, t)); }
         s
+    }
+}
+
+impl Spec {
+    /// the definitions as (section, key, value text) in the order `DefaultModel::from_str` adds them, or None when the
+    /// text form does something a definition-by-definition build would not (repeated or unusual keys, values the
+    /// configuration reader would trim, continue or reject)
+    fn plain_defs(&self) -> Option<Vec<(&'static str, String, String)>> {
+        let mut secs: Vec<(&'static str, Vec<(String, String)>)> = vec![];
+        secs.push(("r", self.r.iter().map(|(k, t)| (k.clone(), t.join(", "))).collect()));
+        secs.push(("p", self.p.iter().map(|(k, t)| (k.clone(), t.join(", "))).collect()));
+        secs.push(("e", self.e.clone()));
+        secs.push(("m", self.m.clone()));
+        secs.push(("g", self.g.iter().map(|(k, n)| (k.clone(), vec!["_"; *n].join(", "))).collect()));
+        let mut out = vec![];
+        for (sec, defs) in secs {
+            for (i, (k, v)) in defs.iter().enumerate() {
+                if defs.iter().take(i).any(|(k2, _)| k2 == k) { return None; }
+                if k.is_empty() || !k.bytes().all(|b| b.is_ascii_lowercase() || b.is_ascii_digit()) { return None; }
+                if v.is_empty() || v.trim() != v || v.contains('\n') || v.contains('\r') || v.ends_with('\\') { return None; }
+            }
+            // load_section: key, key2, key3 ... up to the first one missing
+            let mut i = 1;
+            loop {
+                let key = if i == 1 { sec.to_string() } else { format!("{}{}", sec, i) };
+                match defs.iter().find(|(k, _)| *k == key) { Some((_, v)) => out.push((sec, key, v.clone())), None => break }
+                i += 1;
+            }
+        }
+        Some(out)
+    }
+
+    /// the model as `DefaultModel::from_str` reads it from the text, or - for every third plain specification - built
+    /// definition by definition through `Model::add_def`, the value text handed over with trailing blanks or a line end
+    /// (as read from a prompt, a YAML block or a database column; `add_def` trims the end of the value)
+    pub async fn build(&self, conf: &str) -> casbin::Result<DefaultModel> {
+        let v = variant(&[conf]);
+        if v % 3 == 0 {
+            if let Some(defs) = self.plain_defs() {
+                let trail = [" ", "\n", " \t", "\r\n", ""][(v / 3) % 5];
+                let mut m = DefaultModel::default();
+                let mut stopped: Option<&str> = None;
+                for (sec, key, val) in &defs {
+                    if stopped == Some(*sec) { continue; }
+                    if !m.add_def(sec, key, &format!("{}{}", val, trail)) { stopped = Some(*sec); }
+                }
+                return Ok(m);
+            }
+        }
+        DefaultModel::from_str(conf).await
     }
 }
 
@@ -334,8 +398,9 @@ impl EnfWorld {
                 self.kept_rm = None;
                 let conf = self.conf.clone();
                 let cached = self.cached;
+                let spec = self.spec.clone();
                 let r = catch(|| rt.block_on(async {
-                    let m = DefaultModel::from_str(&conf).await?;
+                    let m = spec.build(&conf).await?;
                     if cached { Ok::<E, casbin::Error>(E::Cached(CachedEnforcer::new(m, FaultyBox(a)).await?)) }
                     else { Ok(E::Plain(Enforcer::new(m, FaultyBox(a)).await?)) }
                 }));
@@ -486,6 +551,16 @@ impl EnfWorld {
                 "e.addfn" => {
                     let imp: fn(ImmutableString, ImmutableString) -> Dynamic = match f.get(2).copied().unwrap_or("eq") { "ne" => ne_fn, "true" => true_fn, _ => eq_fn };
                     with_e!(e, x => x.add_function(&unesc(f[1]), OperatorFunction::Arg2(imp))); "ok".into()
+                }
+                "e.rmh" => {
+                    // the caller edits the role manager through the handle it kept
+                    match kept.clone() {
+                        None => "no-kept".into(),
+                        Some(h) => {
+                            if f[1] == "add" { h.write().add_link(&unesc(f[2]), &unesc(f[3]), dom_opt(f[4]).as_deref()); } else { h.write().clear(); }
+                            "ok".into()
+                        }
+                    }
                 }
                 "e.keeprm" => { *kept = Some(with_e!(&*e, x => x.get_role_manager())); "ok".into() }
                 "e.seteft" => { with_e!(e, x => x.set_effector(Box::new(casbin::DefaultEffector))); "ok".into() }
